@@ -64,6 +64,50 @@ theorem setWhole_refused_no_trace (a : NDArray V) (hn : Normal a) (shape : Idx) 
   · have hl' : (shape.length != a.shape.length) = true := by simp [hl]
     simp [hl']
 
+/-- growing an array and cutting it back to its old extent gives the array back: nothing is lost, nothing appears (for a normalised
+    array; `big` covers the old extent) -/
+theorem setExtent_grow_back (a b c : NDArray V) (hn : Normal a) (big : Idx) (hcover : ∀ idx, inShape a.shape idx = true → inShape big idx = true)
+    (hb : a.setExtent big = .ok b) (hc : b.setExtent a.shape = .ok c) : c.shape = a.shape ∧ ∀ idx, c.get idx = a.get idx := by
+  have hbs := (get_setExtent a b _ hb []).1
+  refine ⟨(get_setExtent b c _ hc []).1, fun idx => ?_⟩
+  rw [(get_setExtent b c _ hc idx).2.2, hbs, (get_setExtent a b _ hb idx).2.2, (get_setExtent a b _ hb idx).2.1]
+  cases hin : inShape a.shape idx with
+  | true => simp [hcover idx hin]
+  | false => simp [hn idx hin]
+
+theorem inShape_addIdx : ∀ (s d idx : Idx), s.length = d.length → inShape s idx = true → inShape (addIdx s d) idx = true
+  | [], [], [], _, _ => rfl
+  | [], [], _ :: _, _, h => by simp [inShape] at h
+  | a :: s, b :: t, [], _, h => by simp [inShape] at h
+  | a :: s, b :: t, i :: is, hl, h => by
+    simp only [inShape, Bool.and_eq_true, decide_eq_true_eq] at h
+    simp only [addIdx, List.zipWith_cons_cons, inShape, Bool.and_eq_true, decide_eq_true_eq]
+    exact ⟨by omega, inShape_addIdx s t is (by simpa using hl) h.2⟩
+  | [], _ :: _, _, hl, _ => by simp at hl
+  | _ :: _, [], _, hl, _ => by simp at hl
+
+/-- **append_refused_no_trace** — an append whose data HDF5 refuses (numbers appended to a string array …) leaves the array exactly as
+    it was: the enlargement along the axis is taken back (false of the pinned tree, D41); so does an append refused by the front
+    end (axis, rank, shape) -/
+theorem append_refused_no_trace (a : NDArray V) (hn : Normal a) (cnt : Idx) (axis : Nat) (vals : List V) :
+    ((a.appendChecked cnt axis vals false).1).shape = a.shape ∧ ∀ idx, ((a.appendChecked cnt axis vals false).1).get idx = a.get idx := by
+  unfold NDArray.appendChecked
+  split
+  · exact ⟨rfl, fun _ => rfl⟩
+  split
+  · exact ⟨rfl, fun _ => rfl⟩
+  split
+  · exact ⟨rfl, fun _ => rfl⟩
+  have hlen : ((List.range a.shape.length).map fun i => if i == axis then (cnt[i]?).getD 0 else 0).length = a.shape.length := by simp
+  have hel : (addIdx a.shape ((List.range a.shape.length).map fun i => if i == axis then (cnt[i]?).getD 0 else 0)).length = a.shape.length := by
+    simp [addIdx, List.length_zipWith]
+  obtain ⟨b, hb⟩ := setExtent_ok a _ hel
+  simp only [hb, Bool.false_eq_true, if_false]
+  have hbs := (get_setExtent a b _ hb []).1
+  obtain ⟨c, hc⟩ := setExtent_ok b a.shape (by rw [hbs, hel])
+  simp only [hc]
+  exact setExtent_grow_back a b c hn _ (fun idx hin => inShape_addIdx _ _ idx hlen.symm hin) hb hc
+
 theorem boxWithin_zeros_max : ∀ (s t : Idx), s.length = t.length → boxWithin (maxIdx s t) (zeros s.length) s = true
   | [], [], _ => rfl
   | a :: s, b :: t, hl => by
